@@ -77,6 +77,24 @@ func (ex *Exec) resolve(st *State, p Val, what string) (*Object, *smt.Expr, bool
 			}
 		}
 	}
+	// KLEE-style: take the model value and prove it is the only one on this path
+	if r, m, _ := ex.check(st, nil, []*smt.Expr{p.E}); r == smt.Sat && m != nil {
+		if a, ok := m.Vals[fmt.Sprintf("#%d", p.E.ID)]; ok || p.E.Op == smt.OVar {
+			if p.E.Op == smt.OVar {
+				a = m.Vals[p.E.Name]
+			}
+			if r2, _, _ := ex.check(st, []*smt.Expr{ex.C.Ne(p.E, ex.C.BV(64, a))}, nil); r2 == smt.Unsat {
+				id := int(a >> baseShift)
+				if o, ok := st.Objs[id]; ok {
+					return o, ex.C.BV(64, a-o.Base), true
+				}
+				if a == 0 {
+					ex.fault(st, "null-deref", what, ex.C.True())
+					return nil, nil, false
+				}
+			}
+		}
+	}
 	ex.abort(st, "unresolvable pointer in "+what+": "+p.E.Short())
 	return nil, nil, false
 }
